@@ -1,4 +1,5 @@
 import AbraProofs.Lemmas.GCCycle
+import AbraProofs.Lemmas.GCProgress
 /-!
 # C07 — unreachable memory is reclaimed; a dropped runtime frees everything
 
@@ -78,6 +79,41 @@ theorem C07_quiet_cycle_leaves_only_reachable {σ0 σ : St} (h0 : Inv σ0) (hp :
     (r : CycleRun (Reach σ0) (gcStart σ0) (Reach σ0) σ) (hidle : σ.phase = .idle) :
     ∀ a ∈ σ.heap, Reach σ0 a :=
   C07_cycle_complete h0 hp r hidle
+
+/-! ### progress -/
+
+/-- `n` collector increments in a row (the program is quiet) -/
+def gcIter : Nat → St → St
+  | 0, σ => σ
+  | n + 1, σ => gcIter n (gcStep σ)
+
+/-- **C07, progress.** While a cycle is running, every collector increment strictly decreases the
+    remaining work `mu` (marking: 2·white + gray + heap + 2; sweeping: unswept + 1). -/
+theorem C07_collector_progress {σ : St} (h : Inv σ) (hne : σ.phase ≠ .idle) :
+    mu (gcStep σ) < mu σ :=
+  gcStep_measure h hne
+
+/-- **C07, a cycle terminates.** From any state of a running cycle, at most `mu σ` increments
+    (≤ 3·heap + gray + 2) bring the collector back to Idle when the program does not allocate. -/
+theorem C07_quiet_cycle_terminates : ∀ (k : Nat) (σ : St), Inv σ → mu σ ≤ k →
+    ∃ n, n ≤ mu σ ∧ (gcIter n σ).phase = .idle := by
+  intro k
+  induction k with
+  | zero =>
+    intro σ _ hk
+    refine ⟨0, Nat.zero_le _, ?_⟩
+    show σ.phase = .idle
+    cases hp : σ.phase with
+    | idle => rfl
+    | marking => unfold mu at hk; rw [hp] at hk; simp at hk
+    | sweeping => unfold mu at hk; rw [hp] at hk; simp at hk
+  | succ k ih =>
+    intro σ hi hk
+    by_cases hp : σ.phase = .idle
+    · exact ⟨0, Nat.zero_le _, hp⟩
+    · have hlt := gcStep_measure hi hp
+      obtain ⟨n, hn, hidle⟩ := ih (gcStep σ) (gcStep_inv hi) (by omega)
+      exact ⟨n + 1, by omega, hidle⟩
 
 /-! ### the allocation ledger and `Drop` -/
 
